@@ -6,16 +6,17 @@ import (
 	"fmt"
 	"go/ast"
 	"go/constant"
-	"math/big"
 	"go/parser"
 	"go/token"
 	"go/types"
+	"math/big"
 	"os"
 	"path/filepath"
 	"regexp"
 	"sort"
 	"strconv"
 	"strings"
+	"sync"
 
 	"golang.org/x/tools/go/packages"
 )
@@ -44,7 +45,7 @@ type Clause struct {
 	Olds  map[ast.Expr]bool // parenthesised sub-expressions that stood inside old(...)
 	Extra map[string]*types.Var
 	Real  map[string]types.Object // wrapper parameter name -> object of the real function
-	Name  string // e.g. ensures#2
+	Name  string                  // e.g. ensures#2
 	Line  int
 	Pkg   *packages.Package
 	Tags  []string // property tags limiting the clause, if any
@@ -64,35 +65,35 @@ type CallSpec struct {
 }
 
 type Contract struct {
-	Key      string
-	Pkg      *packages.Package
-	Fn       *types.Func
-	Decl     *ast.FuncDecl
-	Ints     string
-	Props    []string
-	Requires []*Clause
-	Ensures  []*Clause
-	Modifies []*Clause
-	ModAll   bool // "modifies *": anything reachable may change (no frame obligation, callers havoc everything)
-	Loops    map[int]*LoopSpec
-	Calls    []*CallSpec
-	Assumed  string // non-empty: body is not verified; reason
-	Inline   bool
-	Opaque   map[string]bool
-	Reveal   map[string]bool
-	MayPanic bool
-	NoSafety bool
-	Uninterp bool // spec function treated as an uninterpreted function of its arguments
+	Key        string
+	Pkg        *packages.Package
+	Fn         *types.Func
+	Decl       *ast.FuncDecl
+	Ints       string
+	Props      []string
+	Requires   []*Clause
+	Ensures    []*Clause
+	Modifies   []*Clause
+	ModAll     bool // "modifies *": anything reachable may change (no frame obligation, callers havoc everything)
+	Loops      map[int]*LoopSpec
+	Calls      []*CallSpec
+	Assumed    string // non-empty: body is not verified; reason
+	Inline     bool
+	Opaque     map[string]bool
+	Reveal     map[string]bool
+	MayPanic   bool
+	NoSafety   bool
+	Uninterp   bool // spec function treated as an uninterpreted function of its arguments
 	NoOverflow bool // math mode: arithmetic of this function is assumed not to overflow (recorded as an assumption)
-	Lemma    bool
-	Line     int
-	File     string
-	raw      []rawClause
-	bindErr  error
-	bound    bool
-	Timeout  int
-	Pure     bool
-	Enums    []enumSpec
+	Lemma      bool
+	Line       int
+	File       string
+	raw        []rawClause
+	bindErr    error
+	bound      bool
+	Timeout    int
+	Pure       bool
+	Enums      []enumSpec
 }
 
 type enumSpec struct {
@@ -485,7 +486,11 @@ func (p *Program) bindClause(c *Contract, rc rawClause, pos token.Pos, sig *type
 }
 
 // bindClauseTyped: parse the clause text as a Go expression, remove the sugar, type-check it at pos.
+var bindMu sync.Mutex
+
 func (p *Program) bindClauseTyped(c *Contract, rc rawClause, pos token.Pos, sig *types.Signature, post bool, name string, wantBool bool) (*Clause, error) {
+	bindMu.Lock()
+	defer bindMu.Unlock()
 	text := rc.text
 	var tags []string
 	for strings.HasPrefix(text, "[") {
